@@ -50,6 +50,7 @@ def parseCheck : List String → Option (Chk × List String)
   | "inc" :: h :: r => (unhex h).map fun b => (.pred (.includes b) false none, r)
   | "lc" :: r => some (.pred .lowercase false none, r)
   | "uc" :: r => some (.pred .uppercase false none, r)
+  | "re" :: k :: r => k.toNat?.map fun k => (.pred (.regex k) false none, r)
   | "ref" :: k :: a :: w :: r => do
     let k ← k.toNat?
     let w ← if w == "-" then some none else w.toNat?.map (fun n => some (SPred.custom n))
